@@ -268,7 +268,7 @@ pub fn parse_tree(plain: &[u8]) -> Option<Vec<NodeAbs>> {
 }
 
 /// short stable names for ids, by first appearance
-#[derive(Default, Debug)]
+#[derive(Default, Debug, Clone)]
 pub struct Namer {
     map: BTreeMap<(char, Id), String>,
     count: BTreeMap<char, usize>,
@@ -284,6 +284,10 @@ impl Namer {
         let n = format!("{kind}{c}");
         _ = self.map.insert((kind, *id), n.clone());
         n
+    }
+    /// give `id` an existing name (a file re-encoded by the harness keeps its identity)
+    pub fn force(&mut self, kind: char, id: &Id, name: &str) {
+        _ = self.map.insert((kind, *id), name.to_string());
     }
     pub fn blob(&mut self, b: &BlobRef) -> Value {
         json!([if b.tree { "tree" } else { "data" }, self.name('b', &b.id)])
